@@ -155,6 +155,25 @@ func (b Builder) Alloca(n Expr) (ret Expr) {
 	return
 }
 
+// AllocaEntry reserves an uninitialized slot of type t in the entry block of
+// the current function, so that code executed repeatedly (a loop body, a loop
+// header) does not grow the frame each time it runs.
+func (b Builder) AllocaEntry(t Type) (ret Expr) {
+	dbgInstrf("AllocaEntry %v\n", t.RawType())
+	prog := b.Prog
+	entry := b.Func.impl.EntryBasicBlock()
+	tb := prog.ctx.NewBuilder()
+	defer tb.Dispose()
+	if first := entry.FirstInstruction(); !first.IsNil() {
+		tb.SetInsertPointBefore(first)
+	} else {
+		tb.SetInsertPointAtEnd(entry)
+	}
+	ret.impl = llvm.CreateAlloca(tb, t.ll)
+	ret.Type = prog.Pointer(t)
+	return
+}
+
 func (b Builder) AllocaT(t Type) (ret Expr) {
 	dbgInstrf("AllocaT %v\n", t.RawType())
 	prog := b.Prog
